@@ -475,6 +475,14 @@ def TextRoundTrips (g : Genesis) : Bool :=
   | .error _ => true
   | .ok j => parse (renderGenesis g) == some j
 
+/-- the wall-clock fields are those of a real `time.Time`: month 1..12, day 1..31, hour < 24,
+minute < 60, second < 60 (Go has no leap second), nanosecond < 10⁹.  `GoTime` is a record of free
+numbers; every value Go can hold satisfies this (`GoTime.ofUnix` does: `Spec.C18.ofUnix_wallClockOK`).
+It is what `TextRoundTrips` needs (`Proofs/C18Text.lean`: `textRoundTrips_of_wallClock`). -/
+def WallClockOK (t : GoTime) : Bool :=
+  decide (1 ≤ t.month) && decide (t.month ≤ 12) && decide (1 ≤ t.day) && decide (t.day ≤ 31) &&
+  decide (t.hour < 24) && decide (t.min < 60) && decide (t.sec < 60) && decide (t.nsec < 1000000000)
+
 /-! ## layer 3: disk — paths hold bytes -/
 
 /-- the files of a scenario, by path (newest entry first; the first entry of a path wins) -/
